@@ -296,6 +296,13 @@ impl<R: Round, const B: Word> FBig<R, B> {
     #[inline]
     #[allow(non_upper_case_globals)]
     pub fn with_base<const NewB: Word>(self) -> Rounded<FBig<R, NewB>> {
+        if NewB == B {
+            // the estimate below is a strict lower bound: it would drop one digit of precision
+            // (and turn precision 1 into 0 = unlimited) although nothing is converted
+            let precision = self.context.precision;
+            return self.with_base_and_precision(precision);
+        }
+
         // if self.context.precision is zero, then precision is also zero
         let precision =
             Repr::<B>::BASE.pow(self.context.precision).log2_bounds().0 / NewB.log2_bounds().1;
